@@ -526,10 +526,68 @@ def wide_history(ctx, rng, n):
     return cfg, out
 
 
-def gen_cases(ctx, rng, n_tcp, n_other, n_wide=0):
+def var_layout_history(ctx, rng, n, combined):
+    """messages of the VARIABLE-LAYOUT definitions (STRING_LAU / STRING_LZ, fields without BitOffset, BINARY with
+    BitLengthField, INDIRECT_LOOKUP) on the payload classes of tools/payloads.py:var_layout_payloads (both string
+    encodings, byte-order marks, empty / short / overlong length bytes, truncated payloads, BitLengthField 0 / odd / not
+    available, lookup pairs inside and outside the table).  combined=False: fast-packet sequences / single frames of two
+    or three interleaved sources through decode_tcp; combined=True: one line per message through decode_actisense_string
+    or decode_basic_string(line, True)"""
+    grp = PL.groups()
+    defs = []
+    for d in PL.definitions():
+        g = grp[d["PGN"]]
+        multi = len(g) > 1 and any("Match" in f for x in g for f in x["Fields"])
+        if PL.is_var_layout(d) and PL.supported(d) and (multi or d is g[-1]):
+            defs.append(d)
+    msgs = []
+    for _ in range(n):
+        d = rng.choice(defs)
+        _label, p = rng.choice(PL.var_layout_payloads(d, rng, 4, 2))
+        fast = d.get("Type") == "Fast"
+        nb = min(max((p.bit_length() + 7) // 8, 1), 223 if fast or combined else 8)
+        payload = (p & ((1 << (8 * nb)) - 1)).to_bytes(nb, "little")
+        if rng.random() < 0.2 and nb < (223 if fast or combined else 8):
+            payload += b"\x00" * rng.randint(1, 2)      # trailing zero bytes of the frame: not visible to the field decoders
+        msgs.append((d, payload, fast))
+    cfg = {"ex": [], "inc": [], "exm": [], "incm": [], "nm": False}
+    out = []
+    if combined:
+        for d, payload, _fast in msgs:
+            pgn, src = d["PGN"], rng.choice(H.SOURCES)
+            dst = rng.choice([255, 17]) if H.is_pdu1(pgn) else 255
+            ps = dst if H.is_pdu1(pgn) else (pgn & 0xFF)
+            ident = (rng.getrandbits(3) << 26) | ((pgn >> 8) << 16) | (ps << 8) | src
+            kind = rng.choice([3, 5])
+            out.append((kind, W.render(3 if kind == 3 else 4, ident, payload, rng, C7.ref_extract, rng.random() < 0.15),
+                        rng.random() < 0.3))
+        return cfg, out
+    streams = [[] for _ in range(rng.randint(2, 3))]
+    srcs = rng.sample(H.SOURCES, len(streams))
+    for d, payload, fast in msgs:
+        k = rng.randrange(len(streams))
+        pgn, src = d["PGN"], srcs[k]
+        dst = rng.choice([255, 255, 17]) if H.is_pdu1(pgn) else 255
+        prio = rng.getrandbits(3)
+        if fast:
+            streams[k] += [H.mk_pkt(pgn, src, dst, prio, (f + bytes([0xFF] * 8))[:8], 8)
+                           for f in H.fast_frames(payload, rng.getrandbits(3))]
+        else:
+            streams[k].append(H.mk_pkt(pgn, src, dst, prio, payload, len(payload)))
+    while any(streams):
+        st = rng.choice([x for x in streams if x])
+        out.append((0, st.pop(0), False))
+    return cfg, out
+
+
+def gen_cases(ctx, rng, n_tcp, n_other, n_wide=0, n_var=0):
     """[(cfg, hist, class)]"""
     patch_pools(ctx)
     raw = []
+    for i in range(n_var):
+        comb = i % 2 == 1
+        cfg, hist = var_layout_history(ctx, rng, rng.randint(4, 9), comb)
+        raw.append((cfg, hist[:70], "combined:variable-layout" if comb else "tcp:variable-layout"))
     for _ in range(n_wide):
         cfg, hist = wide_history(ctx, rng, rng.randint(9, 24))
         raw.append((cfg, hist[:60], "tcp:whole-database"))
@@ -570,6 +628,12 @@ def gen(ctx):
                          f"group in the scope of C08: {m.group(2)} of {m.group(1)} groups), {m.group(5)} of them of single-frame "
                          f"PGNs (reached frame by frame; the others through the already-combined entry points); with "
                          f"E2E_undispatched: {m2.group(1) if m2 else '?'} (every fixed-layout bound definition)")
+    m3 = re.search(r"\(88889,\s*(\d+)%nat,\s*(\d+)%nat,\s*(\d+)%nat,\s*(\d+)%nat,\s*(\d+)%nat,\s*(\d+)%nat\)", " ".join(out.split()))
+    if m3:
+        ctx.notes.append(f"end-to-end theorems for the class var_def (spec_decode_var): E2E_any_entry_var covers {m3.group(1)} "
+                         f"(group, bound definition) pairs, {m3.group(3)} of them of single-frame PGNs; with E2E_undispatched_var "
+                         f"(and E2E_claim_var for 60928): {m3.group(2)}, of which {m3.group(4)} are not fixed-layout; bound "
+                         f"definitions of PGN 60928 in var_def: {m3.group(5)}, fixed-layout: {m3.group(6)}")
     if not ok:
         ctx.hints.append({"kind": "tables", "diag": "OblE2E.v: " + " ".join(out.split())[-800:]})
     ok2, out2 = G.compile_template("OblE2Efast", deps=("OblC01", "OblC08", "OblE2E"))
@@ -578,12 +642,18 @@ def gen(ctx):
     mf = re.search(r"\(77777,\s*(\d+)%nat,\s*(\d+)%nat,\s*(\d+)%nat,\s*(\d+)%nat,\s*(\d+)%nat\)", " ".join(out2.split()))
     if mf:
         ctx.notes.append(f"fast-packet end-to-end theorems (frame by frame): E2E_fast_any_entry / E2E_fast_undispatched cover {mf.group(2)} of {mf.group(1)} fixed-layout bound definitions (fast-packet PGNs; {mf.group(3)} by E2E_fast_any_entry alone); {mf.group(4)} are single-frame (OblE2E), {mf.group(5)} without usable is_fast function")
+    mv = re.search(r"\(77779,\s*(\d+)%nat,\s*(\d+)%nat,\s*(\d+)%nat,\s*(\d+)%nat,\s*(\d+)%nat,\s*(\d+)%nat\)", " ".join(out2.split()))
+    if mv:
+        ctx.notes.append(f"fast-packet end-to-end theorems for var_def (frame by frame): E2E_fast_any_entry_var / "
+                         f"E2E_fast_undispatched_var cover {mv.group(2)} of {mv.group(1)} bound definitions (fast-packet PGNs; "
+                         f"{mv.group(3)} by E2E_fast_any_entry_var alone; {mv.group(4)} of them not fixed-layout); {mv.group(5)} are "
+                         f"single-frame (OblE2E), {mv.group(6)} without usable is_fast function")
     if not ok2:
         ctx.hints.append({"kind": "tables", "diag": "OblE2Efast.v: " + " ".join(out2.split())[-800:]})
 
 
 # ------------------------------------------------------------------ correspondence
-def correspond(ctx, prop=None, n_tcp=None, n_other=None, n_wide=None):
+def correspond(ctx, prop=None, n_tcp=None, n_other=None, n_wide=None, n_var=None):
     prop = prop or ctx.prop
     g = G.ensure_gen()
     if not g["ok"]:
@@ -595,7 +665,7 @@ def correspond(ctx, prop=None, n_tcp=None, n_other=None, n_wide=None):
                  "errors": [out[-1500:]], "distinct_nontrivial": 0}]
     rng = random.Random(f"e2e:{prop}:{ctx.seed}:{ctx.tier}")
     raw = gen_cases(ctx, rng, n_tcp if n_tcp is not None else ctx.n(70, 500), n_other if n_other is not None else ctx.n(40, 250),
-                    n_wide if n_wide is not None else ctx.n(40, 300))
+                    n_wide if n_wide is not None else ctx.n(40, 300), n_var if n_var is not None else ctx.n(16, 120))
     rng.shuffle(raw)
     H.INTERN = {}
     observed, keys = [], []
